@@ -8,6 +8,7 @@
 From Coq Require Import ZArith List String.
 From Verif Require Import Model.Effects Proofs.EffectsProofs Proofs.EffectsDocumented Proofs.EffectsVerdictPure Proofs.EffectsVerdictState.
 From Verif Require Gen.EffectsIR.
+From Verif Require Import Model.EffectsDet Proofs.EffectsDetProofs Proofs.EffectsDetVerdict.
 Import ListNotations.
 
 (* proof obligations on the regenerated IR *)
@@ -52,8 +53,67 @@ Proof. vm_compute. reflexivity. Qed.
 (* results do not depend on heap contents: traces and returned regions of a run
    are the same from any heap (soundness of "depends only on its arguments"
    at the IR level; the VALUES are the functional models of C01..C15) *)
+
+(* ---- deterministic programs (Model/EffectsDet.v): a call is a PROGRAM that computes its
+   actions and its result from what it reads and that conforms to the regenerated IR of an
+   exported function; for such programs the RESULT is a theorem, not only the footprint ---- *)
+(* C16 "each operation's result depends only on its arguments" - program
+   level: the trace and the result of a deterministic program are determined
+   by the contents of the cells it reads before having written them. *)
+Theorem C16_result_depends_on_reads : forall p h1 h2 fuel tr r,
+    prog_trace p h1 fuel = (tr, r) ->
+    (forall c, In c (ext_reads tr []) -> h1 c = h2 c) ->
+    prog_trace p h2 fuel = (tr, r).
+Proof. exact prog_det_agree. Qed.
+
+(* ... and for an implementation of an exported function these cells are
+   cells of the arguments and of package-level variables *)
+Theorem C16_inputs : forall gl f, In f EffectsIR.exported_names ->
+    forall p ps lo hi h tr res,
+      conforms EffectsIR.funcs gl p f ps lo hi -> alone p h tr res ->
+      (forall c, In c (ext_reads tr []) -> acc gl ps c) /\
+      (forall h2, (forall c, In c (ext_reads tr []) -> h c = h2 c) -> alone p h2 tr res).
+Proof. exact c16_inputs. Qed.
+
+(* C16 "interleaving it with arbitrary other calls including failing ones
+   yields the same result" *)
+Theorem C16_repeat : forall gl f, In f EffectsIR.exported_names ->
+    forall p ps lo hi, conforms EffectsIR.funcs gl p f ps lo hi ->
+    forall hist, Forall (fun fp : call => In (fst fp) EffectsIR.exported_names) hist ->
+    forall h nx h1 nx1, run_hist EffectsIR.funcs gl hist h nx h1 nx1 ->
+    (forall c, acc gl ps c -> c < nx) ->
+    (forall c, acc gl ps c -> ~ hist_dest documented hist c) ->
+    forall tr res, alone p h tr res ->
+      alone p h1 tr res /\
+      exists n h2 hi' ret, run EffectsIR.funcs gl n f ps h1 lo h2 hi' tr ret.
+Proof. exact c16_repeat. Qed.
+
+Theorem C16_repeat_inputs : forall gl f, In f EffectsIR.exported_names ->
+    forall p ps lo hi, conforms EffectsIR.funcs gl p f ps lo hi ->
+    forall hist, Forall (fun fp : call => In (fst fp) EffectsIR.exported_names) hist ->
+    forall h nx h1 nx1, run_hist EffectsIR.funcs gl hist h nx h1 nx1 ->
+    (forall c, acc gl ps c -> c < nx) ->
+    forall tr res, alone p h tr res ->
+    (forall c, In c (ext_reads tr []) -> ~ hist_dest documented hist c) ->
+    alone p h1 tr res.
+Proof. exact c16_repeat_inputs. Qed.
+
+(* C16 "repeating a call yields the same result" *)
+Theorem C16_repeat_call : forall gl f, In f EffectsIR.exported_names ->
+    forall p ps lo hi, conforms EffectsIR.funcs gl p f ps lo hi ->
+    (forall c, acc gl ps c -> c < lo) ->
+    forall h tr res, alone p h tr res ->
+    (forall c, In c (ext_reads tr []) -> ~ dest_cells ps (dest_of documented f) c) ->
+    forall k, alone p (Nat.iter k (apply_tr tr) h) tr res.
+Proof. exact c16_repeat_call. Qed.
+
 Print Assumptions C16_all_exported_pure.
 Print Assumptions C16_no_package_state.
 Print Assumptions C16_frame.
 Print Assumptions C16_history.
 Print Assumptions C16_run_inhabited.
+Print Assumptions C16_result_depends_on_reads.
+Print Assumptions C16_inputs.
+Print Assumptions C16_repeat.
+Print Assumptions C16_repeat_inputs.
+Print Assumptions C16_repeat_call.
